@@ -32,8 +32,8 @@ RULE = (
 TOLERANCES = {"everything": "bitwise / exact equality (OpenCV's RNG re-seeded before each colour-correction evaluation)"}
 ASSUMPTIONS = ["files are written to a per-run temporary directory that is removed afterwards", "lossless formats: PNG (8 bit) and TIFF (16 bit), as documented in OpticalImage.write"]
 FLOORS = {
-    "quick": {"npz_roundtrip": 250, "bytes_roundtrip": 150, "optical_write_read": 60, "correction_roundtrip": 120},
-    "thorough": {"npz_roundtrip": 3000, "bytes_roundtrip": 1800, "optical_write_read": 700, "correction_roundtrip": 1400},
+    "quick": {"npz_roundtrip": 250, "bytes_roundtrip": 150, "optical_write_read": 60, "correction_roundtrip": 150, "estimator_regions_compared": 100},
+    "thorough": {"npz_roundtrip": 3000, "bytes_roundtrip": 1800, "optical_write_read": 700, "correction_roundtrip": 1700, "estimator_regions_compared": 1000},
 }
 SHARD_TIMEOUT = {"quick": 1500, "thorough": 7200}
 
@@ -179,13 +179,25 @@ def run_shard(spec, R):
         except Exception as e:  # noqa
             return ("raised", f"{type(e).__name__}: {str(e)[:100]}")
 
-    def roundtrip(label, corr, fresh_inputs, case, kmeans=False):
+    # spy at the boundary between a drift correction and its translation estimator: the image regions a correction
+    # hands over while correcting an input are part of what it does with that input
+    from vf.attach import wrap
+
+    regions = []
+    wrap(darsia.TranslationEstimator, "match_roi", before=lambda a, k: regions.append(snap({kk: k.get(kk) for kk in ("roi_src", "roi_dst")})))
+
+    def roundtrip(label, corr, fresh_inputs, case, kmeans=False, generations=1):
         path = tmp / f"corr-{label}-{np.random.randint(1 << 30)}.npz"
         with quiet():
             ok, _ = R.guarded(f"save:{label}", lambda: corr.save(path))
             if not ok:
                 return
             ok, back = R.guarded(f"read_correction:{label}", lambda: darsia.read_correction(path))
+            for _g in range(generations - 1):  # saved and reloaded again, from the reloaded object
+                if ok:
+                    ok, _ = R.guarded(f"save:{label}", lambda: back.save(path))
+                if ok:
+                    ok, back = R.guarded(f"read_correction:{label}", lambda: darsia.read_correction(path))
         if not ok:
             return
         good = type(back) is type(corr)
@@ -193,10 +205,17 @@ def run_shard(spec, R):
         for i, x in enumerate(fresh_inputs):
             if kmeans:
                 cv2.setRNGSeed(0)
+            n0 = len(regions)
             ok1, a = True, _call(corr, x)
             if kmeans:
                 cv2.setRNGSeed(0)
+            n1 = len(regions)
             ok2, b = True, _call(back, x)
+            if regions[n0:n1] != regions[n1:]:
+                good = False
+                det[f"input{i}:estimator_regions"] = {"original": str(regions[n0:n1])[:300], "reloaded": str(regions[n1:])[:300]}
+            if n1 > n0:
+                R.count("estimator_regions_compared")
             if not (ok1 and ok2):
                 good = False
                 det[f"input{i}"] = "raised"
@@ -239,12 +258,19 @@ def run_shard(spec, R):
             # drift
             big = (96, 128)
             tex = np.zeros(big + (3,), np.uint8)
-            for _ in range(60):
+            for _ in range(140):
                 cv2.circle(tex, (int(rng.integers(5, big[1] - 5)), int(rng.integers(5, big[0] - 5))), int(rng.integers(2, 7)), tuple(int(v) for v in rng.integers(40, 255, size=3)), -1)
             moved = np.roll(tex, (2, 3), axis=(0, 1))
-            for cfg in ({}, {"active": False}, {"roi": (slice(5, 90), slice(8, 120))}, {"roi": [[5, 8], [90, 120]], "padding": 0.05}, {"active": False, "roi": (slice(0, 30), slice(0, 40))}):
-                roundtrip("drift", darsia.DriftCorrection(base=tex.copy(), config=dict(cfg)), [moved.copy(), darsia.OpticalImage(moved.copy(), dimensions=[0.96, 1.28], color_space="RGB")],
-                          {"config": {k: str(v) for k, v in cfg.items()}})
+            # a second input moves differently inside and outside the central region
+            moved2 = np.roll(tex, (1, 5), axis=(0, 1))
+            moved2[30:66, 40:88] = np.roll(tex, (4, 1), axis=(0, 1))[30:66, 40:88]
+            pad = float(rng.choice([0.05, 0.1, 0.2]))
+            for ci, cfg in enumerate(({}, {"active": False}, {"roi": (slice(5, 90), slice(8, 120))}, {"roi": [[5, 8], [90, 120]], "padding": 0.05},
+                                      {"roi": [[20, 24], [76, 104]], "padding": pad}, {"roi": np.array([[18, 22], [78, 106]]), "padding": pad}, {"padding": pad},
+                                      {"active": False, "roi": (slice(0, 30), slice(0, 40))})):
+                roundtrip("drift", darsia.DriftCorrection(base=tex.copy(), config=dict(cfg)),
+                          [moved.copy(), moved2.copy(), darsia.OpticalImage(moved.copy(), dimensions=[0.96, 1.28], color_space="RGB")],
+                          {"config": {k: str(v) for k, v in cfg.items()}, "generations": 1 + (n + ci) % 2}, generations=1 + (n + ci) % 2)
             # curvature
             cfg = {"bulge": {"horizontal_bulge": float(rng.uniform(-2e-5, 2e-5)), "vertical_bulge": float(rng.uniform(-2e-5, 2e-5))},
                    "stretch": {"horizontal_stretch": float(rng.uniform(-2e-5, 2e-5)), "vertical_stretch": 0.0, "horizontal_center_offset": int(rng.integers(-2, 3)), "vertical_center_offset": 0}}
